@@ -5,11 +5,11 @@ Driver for C30.  State = the `Traverse` adjacency of the current world as dumped
 `World.Traverse` + real `Weights`), which is the model's `Graph`.
 
 ops (points `n<k>`, segments `w<way>.<first>.<last>`, integer weights/distances, `inf` = +Inf):
-  `world <kind> [p …]`                             answer `[pt/seg/first/last/usable/weight …]`  (recorded)
+  `world <kind> [p …] [w=p,p,… …]`                 answer `[pt/seg/first/last/usable/weight …]`  (recorded; paths)
   `search <o> <max> zu=<0|1> bf=[p:d …]`           answer `[p:d:origin/seg-dest-cost/… …]` sorted by p
   `searchto <o> <to> <max> zu=<0|1> bf=[p:d …]`    answer as above (all `byPoint` entries after `ExpandSearchTo`; `to` may be `o`)
-  `access <o> <max> zu=<0|1> bf=[p:d …]`           answer `[p:d …] | [seg:n …]`: `ComputeAccessibility`'s distance for
-                                                   every point the search reached, and its per-segment path counts
+  `access <o> <max> zu=<0|1> bf=[p:d …]`           answer `[p:d …] | [seg:n …] | [q …]`: `ComputeAccessibility`'s distance for every
+                                                   point the search reached, per-segment path counts, interpolated points
 
 `bf` = Bellman–Ford distances computed by the harness over the same adjacency (no limit): the reference for
 the property predicate.  `zu` = outcome of the connectivity probe of `NewShortestPathSearchFromPoint`.
@@ -33,6 +33,7 @@ abbrev T := Table String String Nat
 structure World where
   points : List String
   edges : List (String × E)        -- (traversed-from point, segment) in dump order
+  paths : List (String × List String) := []   -- way ↦ its points in path order
   ok : Bool                         -- a world line has been seen
 
 def World.graph (w : World) : Graph String String Nat :=
@@ -181,20 +182,32 @@ def undirected (seg : String) : String :=
 def bump (m : List (String × Nat)) (k : String) : List (String × Nat) :=
   if m.any (·.1 == k) then m.map (fun (a, n) => if a == k then (a, n + 1) else (a, n)) else m ++ [(k, 1)]
 
-/-- distances of all entries and, per undirected segment, the number of entries whose route uses it -/
-def renderAccess (t : T) : String :=
+/-- points of the path between the two indices of `w<way>.<a>.<b>` (inclusive, either direction) -/
+def segPoints (w : World) (seg : String) : List String :=
+  match seg.splitOn "." with
+  | [way, a, b] => match a.toNat?, b.toNat?, w.paths.find? (·.1 == way) with
+    | some x, some y, some (_, pts) =>
+      let lo := if x ≤ y then x else y
+      let hi := if x ≤ y then y else x
+      (pts.drop lo).take (hi - lo + 1)
+    | _, _, _ => []
+  | _ => []
+
+/-- distances of all entries; per undirected segment the number of entries whose route uses it; interpolated points -/
+def renderAccess (w : World) (t : T) : String :=
   let ds := (t.map fun (p, e) => (p, s!"{p}:{e.dist}")).mergeSort (fun a b => strLe a.1 b.1)
   let counts := t.foldl (fun m (p, _) =>
     match buildRoute t (t.length + 1) p [] with
     | some (_, steps) => steps.foldl (fun m st => bump m (undirected st.via.seg)) m
     | none => bump m "loop") []
   let cs := counts.mergeSort (fun a b => strLe a.1 b.1)
-  renderList (ds.map (·.2)) ++ " | " ++ renderList (cs.map fun (k, n) => s!"{k}:{n}")
+  let interp := (interpolatedPoints t (segPoints w)).mergeSort strLe
+  renderList (ds.map (·.2)) ++ " | " ++ renderList (cs.map fun (k, n) => s!"{k}:{n}") ++ " | " ++ renderList interp
 
 def accessPredicate (w : World) (o : String) (max : Nat) (bf : List (String × Nat)) (impl : String) :
     Option String :=
   match impl.splitOn " | " with
-  | [dText, _] =>
+  | [dText, _, _] =>
     match parseBF dText with      -- non-integer / missing distances do not parse
     | none => some "distance"
     | some ds =>
@@ -217,13 +230,20 @@ def splitBF (op : String) : Option (String × String) :=
 def step (w : World) (op impl : String) : World × Verdict :=
   match words op with
   | "world" :: _kind :: _ =>
-    let ptsText := " ".intercalate ((words op).drop 2)
-    match parseBracket ptsText, parseBracket impl with
-    | some pts, some es =>
-      match es.mapM parseEdge with
-      | some edges => ({ points := pts, edges := edges, ok := true }, .ok)
-      | none => (w, .bad)
-    | _, _ => (w, .bad)
+    -- `world <kind> [points] [w1=n1,n2 …]`
+    let rest := " ".intercalate ((words op).drop 2)
+    match rest.splitOn "] [" with
+    | [a, b] =>
+      match parseBracket (a ++ "]"), parseBracket ("[" ++ b), parseBracket impl with
+      | some pts, some pws, some es =>
+        let paths := pws.mapM fun pw => match pw.splitOn "=" with
+          | [way, ns] => some (way, ns.splitOn ",")
+          | _ => none
+        match es.mapM parseEdge, paths with
+        | some edges, some paths => ({ points := pts, edges := edges, ok := true, paths := paths }, .ok)
+        | _, _ => (w, .bad)
+      | _, _, _ => (w, .bad)
+    | _ => (w, .bad)
   | "search" :: _ =>
     match splitBF op with
     | none => (w, .bad)
@@ -261,7 +281,7 @@ def step (w : World) (op impl : String) : World × Verdict :=
           match search w.graph max origins (4 * (w.points.length + 4)) with
           | .done s' =>
             if !allVisited s'.t then (w, .bad) else
-            (w, judge impl (renderAccess s'.t) (accessPredicate w o max bf impl))
+            (w, judge impl (renderAccess w s'.t) (accessPredicate w o max bf impl))
           | _ => (w, .bad)
         | _, _, _ => (w, .bad)
       | _, _ => (w, .bad)
